@@ -3,8 +3,9 @@
 //! atomic (derived from the file that creates it) and the harness' filter:
 //!   * control flags (`is_closed`, `max_cost`): always;
 //!   * metrics stripes / histogram counters: only if the harness enabled the class, and then a run
-//!     of consecutive metrics accesses by one task (the 256-stripe loops of `get` / `clear`) is one
-//!     point, not 256.
+//!     of consecutive metrics accesses by one task to DIFFERENT atomics (the 256-stripe loops of
+//!     `get` / `clear`) is one point, not 256; a second access to the atomic touched last (a
+//!     load followed by a store: a non-atomic read-modify-write) is a point of its own.
 
 pub use std::sync::atomic::Ordering;
 
@@ -23,7 +24,7 @@ fn class_of(loc: &std::panic::Location<'_>) -> u8 {
 }
 
 #[inline]
-fn access(class: u8) {
+fn access(class: u8, addr: usize) {
     if !kernel::in_model() {
         return;
     }
@@ -34,9 +35,10 @@ fn access(class: u8) {
         if class == CLASS_CTL {
             return true;
         }
-        // coalesce consecutive metrics accesses of one task
+        // coalesce consecutive metrics accesses of one task to different atomics
         let me = kernel::me();
-        if w.last_metrics_task == Some(me) {
+        if w.last_metrics_task == Some(me) && w.last_metrics_addr != addr {
+            w.last_metrics_addr = addr;
             false
         } else {
             true
@@ -46,7 +48,10 @@ fn access(class: u8) {
         kernel::point();
         if class != CLASS_CTL {
             let me = kernel::me();
-            with_world(|w| w.last_metrics_task = Some(me));
+            with_world(|w| {
+                w.last_metrics_task = Some(me);
+                w.last_metrics_addr = addr;
+            });
         }
     }
 }
@@ -63,27 +68,27 @@ macro_rules! atomic_int {
                 $name { v: <$std>::new(v), class: class_of(std::panic::Location::caller()) }
             }
             pub fn load(&self, _o: Ordering) -> $t {
-                access(self.class);
+                access(self.class, &self.v as *const _ as usize);
                 self.v.load(Ordering::SeqCst)
             }
             pub fn store(&self, v: $t, _o: Ordering) {
-                access(self.class);
+                access(self.class, &self.v as *const _ as usize);
                 self.v.store(v, Ordering::SeqCst)
             }
             pub fn swap(&self, v: $t, _o: Ordering) -> $t {
-                access(self.class);
+                access(self.class, &self.v as *const _ as usize);
                 self.v.swap(v, Ordering::SeqCst)
             }
             pub fn compare_exchange(&self, c: $t, n: $t, _s: Ordering, _f: Ordering) -> Result<$t, $t> {
-                access(self.class);
+                access(self.class, &self.v as *const _ as usize);
                 self.v.compare_exchange(c, n, Ordering::SeqCst, Ordering::SeqCst)
             }
             pub fn compare_exchange_weak(&self, c: $t, n: $t, _s: Ordering, _f: Ordering) -> Result<$t, $t> {
-                access(self.class);
+                access(self.class, &self.v as *const _ as usize);
                 self.v.compare_exchange(c, n, Ordering::SeqCst, Ordering::SeqCst)
             }
             pub fn fetch_update<F: FnMut($t) -> Option<$t>>(&self, _s: Ordering, _f: Ordering, f: F) -> Result<$t, $t> {
-                access(self.class);
+                access(self.class, &self.v as *const _ as usize);
                 self.v.fetch_update(Ordering::SeqCst, Ordering::SeqCst, f)
             }
             pub fn get_mut(&mut self) -> &mut $t {
@@ -116,27 +121,27 @@ macro_rules! atomic_arith {
     ($name:ident, $t:ty) => {
         impl $name {
             pub fn fetch_add(&self, v: $t, _o: Ordering) -> $t {
-                access(self.class);
+                access(self.class, &self.v as *const _ as usize);
                 self.v.fetch_add(v, Ordering::SeqCst)
             }
             pub fn fetch_sub(&self, v: $t, _o: Ordering) -> $t {
-                access(self.class);
+                access(self.class, &self.v as *const _ as usize);
                 self.v.fetch_sub(v, Ordering::SeqCst)
             }
             pub fn fetch_max(&self, v: $t, _o: Ordering) -> $t {
-                access(self.class);
+                access(self.class, &self.v as *const _ as usize);
                 self.v.fetch_max(v, Ordering::SeqCst)
             }
             pub fn fetch_min(&self, v: $t, _o: Ordering) -> $t {
-                access(self.class);
+                access(self.class, &self.v as *const _ as usize);
                 self.v.fetch_min(v, Ordering::SeqCst)
             }
             pub fn fetch_and(&self, v: $t, _o: Ordering) -> $t {
-                access(self.class);
+                access(self.class, &self.v as *const _ as usize);
                 self.v.fetch_and(v, Ordering::SeqCst)
             }
             pub fn fetch_or(&self, v: $t, _o: Ordering) -> $t {
-                access(self.class);
+                access(self.class, &self.v as *const _ as usize);
                 self.v.fetch_or(v, Ordering::SeqCst)
             }
         }
@@ -157,15 +162,15 @@ atomic_arith!(AtomicU32, u32);
 atomic_arith!(AtomicIsize, isize);
 impl AtomicBool {
     pub fn fetch_and(&self, v: bool, _o: Ordering) -> bool {
-        access(self.class);
+        access(self.class, &self.v as *const _ as usize);
         self.v.fetch_and(v, Ordering::SeqCst)
     }
     pub fn fetch_or(&self, v: bool, _o: Ordering) -> bool {
-        access(self.class);
+        access(self.class, &self.v as *const _ as usize);
         self.v.fetch_or(v, Ordering::SeqCst)
     }
     pub fn fetch_xor(&self, v: bool, _o: Ordering) -> bool {
-        access(self.class);
+        access(self.class, &self.v as *const _ as usize);
         self.v.fetch_xor(v, Ordering::SeqCst)
     }
 }
